@@ -147,6 +147,9 @@ class Run:
             if d not in dropped:
                 dropped.append(d)
         name = '%s/extraction/every-module-level-statement-interpreted' % self.pid
+        if getattr(self, '_extraction_done', False):
+            return
+        self._extraction_done = True
         if not values.GLOBAL_OBJS and not dropped:
             return
         if not dropped:
@@ -155,6 +158,18 @@ class Run:
             why = '; '.join('%s line %s (%s)' % (d[0], d[1], d[3]) for d in dropped[:5])
             self.add(name, 'unsupported', 'module loader', 0, 'module top levels of the repository', why, kind='extraction')
             self.undecide(name, 'module-level statements outside the subset were dropped: ' + why)
+            # what was refuted on an incomplete model of the modules (a dropped statement may have built or patched a table)
+            # and does not reproduce on the real code is undecided, not a violation
+            keep = []
+            for v in self.violations:
+                if v[2]:
+                    keep.append(v)
+                    continue
+                self.undecide(v[0], 'refuted on an incomplete model of the module (dropped module-level statement) and not reproduced on the real code')
+                for o in self.obligations:
+                    if o['name'] == v[0] and o['status'] == 'refuted':
+                        o['status'] = 'unsupported'
+            self.violations = keep
 
     def finish(self, checker_cmd=None):
         try:
